@@ -6,6 +6,21 @@ ROOT = os.path.dirname(os.path.dirname(os.path.abspath(__file__)))
 
 # id -> (level category, technique, level text, level note, design ref)
 CHECKS = {
+ "C09": ("exploration",
+         "property-based generation (proptest byte tapes -> lexer specs from overlapping terminal pools + inputs) with a reference-lexer differential: documented longest-match/precedence model vs the real lalrpop_util MatcherBuilder run in process on the tables extracted from LALRPOP's output",
+         "Generated-input search: 3e3 (quick) / 6e4 (thorough) lexer specs (2-6 literal/regex terminals from overlapping pools and a regex grammar; no match block or 1-3 rungs; renamings to bare/literal/regex names, skip rules, `_`, unused terminals) x 14 strings each (token texts, near misses, random ASCII/non-ASCII, whitespace variants). LALRPOP is run through its CLI; `__strs`, the `Token(k,_) => Some(i)` arms and `__TERMINAL` are read back with proc_macro2 + Rust unescaping and drive the real Matcher; expected (terminal, lo, hi)* / InvalidToken offset come from a reference lexer (regex meta engine without DFAs on the original text, every end tried). Tape shrinking of the first failing case per signature.",
+         "Fast tier only (no compiled end-to-end tier yet): the parser's use of the tables is covered by reading `__token_to_integer`/`__TERMINAL` as text. Positions with an equal-precedence tie (C11 finding F7) or an empty longest match (C08 finding F3) are not compared and are counted. Rejected grammars (ambiguity) are skipped and counted.",
+         "DESIGN.md section 3, C09"),
+ "C10": ("exploration",
+         "property-based generation (proptest byte tapes -> literals / regexes from a regex grammar) with a regex round-trip oracle: the pattern string LALRPOP rendered into the generated lexer, run by the real MatcherBuilder, vs w == s for literals and an independent anchored matcher on the original regex text",
+         "Generated-input search: 3e3 / 6e4 grammars of 1-4 terminals, each in its own precedence rung (literals over metacharacters, all grammar-level escapes in varying spellings, 2-4 byte characters; regexes with classes, negated/nested classes, set operations, ranges, counted repetitions, alternation incl. empty branches, groups, flags i/s/u/x/-u, Unicode and Perl classes, escapes) x 10-25 candidates per terminal (the string, prefixes, extensions, case variants, mutations, what the text would match if misread as a regex / as a literal; HIR samples, their mutations, random strings). Full match = exactly one token 0..len then end of input from a MatcherBuilder built from the terminal's own rendered pattern, located through `__TERMINAL` and `__token_to_integer`.",
+         "The reference for regexes shares regex-syntax's parser with the code under test (it is the definition of 'Rust regex syntax'); what is cross-checked is LALRPOP's escape -> HIR -> Display -> Debug -> rustc-unescape pipeline and the runtime configuration. Empty literal and empty candidates excluded. Fast tier only.",
+         "DESIGN.md section 3, C10"),
+ "C11": ("exploration",
+         "property-based generation (proptest byte tapes -> 2-5 terminals in 1-3 rungs, biased to partial overlaps and non-ASCII) with an exact DFA-product oracle: dense anchored regex-automata DFAs per pattern, product BFS for a string matched by two equal-precedence terminals and by no higher-precedence one (with witness)",
+         "Generated-input search: 4e3 / 8e4 grammars; LALRPOP must report `ambiguity detected` iff the oracle finds a witness; grammars containing look-around / non-greedy / named captures must get the `not supported in regular expressions` diagnostic (never a parser, never a panic). A disagreement is attributed to finding F7 only if re-running the oracle with non-ASCII literals read byte-as-code-point reproduces LALRPOP's verdict; every other disagreement is a VIOLATION. Witnesses of missed overlaps are re-checked against the real runtime patterns.",
+         "Ties shadowed by a strictly higher-precedence terminal on every common string are don't-care (counted). Skip rules and the implicit whitespace skip are outside the domain. BFS capped at 1.5e5 product states (cap hits are counted; none observed).",
+         "DESIGN.md section 3, C11"),
  "C28": ("exploration",
          "property-based testing (proptest byte tapes) against a field-wise reference model and a reference formatter",
          "Generated-input search over all five ParseError variants with small location/token/error domains and expected lists of 0..6 strings; every helper is compared with an independently written reference (map_* field-wise incl. call multiset, composition/commutation laws, Display, From). 2e4 cases quick, 1e6 thorough, proptest shrinking.",
